@@ -30,6 +30,76 @@ def run_one(cmd, stdin=None, env=None, cwd=None, timeout=60):
     return (p.returncode, p.stdout, p.stderr)
 
 
+def decl_zoo(rng, n):
+    """small units made of randomly derived declarators (arrays of constant / variable / unspecified length in every
+    nesting order, pointers, function pointers, typedefs of variably modified types, compound literals, bit-fields,
+    flexible members): every type/decl/expr node constructor of the front end is reached with unusual field
+    combinations, which is where a field left uninitialised would matter"""
+    bases = ["int", "char", "long", "double", "unsigned short", "struct P", "union U", "float", "_Bool"]
+    units = []
+    for u in range(n):
+        lines = ["struct P { int a; char b[3]; unsigned f : 5; }; union U { long l; float g; };",
+                 "struct F { int n; short tail[]; };", "void use(void *, unsigned long);",
+                 "void f%d(int n, int m)" % u, "{"]
+        for k in range(rng.randrange(2, 7)):
+            b = rng.choice(bases)
+            name = "v%d" % k
+            d = name
+            vm = False
+            for _ in range(rng.randrange(0, 4)):
+                c = rng.random()
+                if c < 0.30:
+                    d = "%s[%d]" % (d, rng.choice([1, 2, 3, 7]))
+                elif c < 0.62:
+                    d = "%s[%s]" % (d, rng.choice(["n", "m", "n + 1", "m * 2", "n + m", "(n)"]))
+                    vm = True
+                elif c < 0.85:
+                    d = "(*%s%s)" % (rng.choice(["", "const ", "restrict ", "volatile "]) if "[" not in d else "", d)
+                else:
+                    d = "(*%s)(%s)" % (d, rng.choice(["void", "int", "int, char *", "int k, int (*)[k]"]))
+            form = rng.random()
+            if form < 0.2:
+                lines.append("\ttypedef %s %s;" % (b, d.replace(name, "T%d" % k)))
+                lines.append("\tT%d %s%s;" % (k, rng.choice(["", "*"]), name) if not d.startswith("(*") or True else "")
+                lines.append("\tuse(&%s, sizeof(T%d));" % (name, k))
+            elif form < 0.3 and not vm:
+                lines.append("\tstatic %s %s;" % (b, d))
+                lines.append("\tuse(&%s, sizeof %s);" % (name, name))
+            else:
+                lines.append("\t%s %s;" % (b, d))
+                lines.append("\tuse(&%s, sizeof %s);" % (name, name))
+            if rng.random() < 0.3:
+                lines.append("\tuse((%s[]){0}, sizeof(%s[n]));" % (rng.choice(["int", "long", "char"]), rng.choice(["int", "char", "double"])))
+            if rng.random() < 0.2:
+                lines.append("\tuse(&(struct P){.f = n}, _Alignof(%s));" % b)
+        lines.append("}")
+        if rng.random() < 0.5:
+            lines.append("void g%d(int n, int a[n][3], int b[3][n], int c[*][*]);" % u if False else
+                         "void g%d(int n, int a[n][3], int b[3][n], int (*c)[n]);" % u)
+        units.append("\n".join(lines) + "\n")
+    return units
+
+
+def build_msan(ck):
+    """cproc-qbe built from the scratch copy with clang -fsanitize=memory (uninitialised reads that decide a branch,
+    an address or an output byte).  None when clang/MSan is not usable here."""
+    if not shutil.which("clang"):
+        return None
+    flags = ["-O1", "-g", "-fsanitize=memory", "-fno-omit-frame-pointer", "-std=c11", "-w"]
+    src = ck.repo_src()
+    try:
+        objs = ck.compile_objs([os.path.join(src, u + ".c") for u in common.REPO_UNITS + ["main"]], flags, cc="clang")
+        exe = ck.link(objs, "cproc-qbe-msan", flags=["-fsanitize=memory"], cc="clang")
+    except common.CompileError as e:
+        ck.notes.append("MSan build not available: %s" % str(e)[-200:])
+        return None
+    r = subprocess.run([exe], input=b"int x;\n", stdout=subprocess.PIPE, stderr=subprocess.PIPE)
+    if r.returncode != 0 or b"MemorySanitizer" in r.stderr:
+        ck.notes.append("MSan build does not run cleanly on a trivial input: %s" % r.stderr[-200:])
+        return None
+    return exe
+
+
 def run(ck):
     rng = ck.rng
     ck.lean_build()
@@ -55,7 +125,18 @@ def run(ck):
         p = os.path.join(d, "g%d.c" % i)
         open(p, "w").write(text)
         inputs.append((p, ["-t", targ]))
+    nzoo = 0
+    for i, text in enumerate(decl_zoo(rng, 60 if ck.quick else 1200)):
+        g = subprocess.run(["gcc", "-std=c11", "-w", "-fsyntax-only", "-x", "c", "-"], input=text.encode(),
+                           stdout=subprocess.PIPE, stderr=subprocess.PIPE)
+        if g.returncode != 0:
+            continue
+        p = os.path.join(d, "z%d.c" % i)
+        open(p, "w").write(text)
+        inputs.append((p, ["-t", rng.choice(progrun.TARGETS)[0]]))
+        nzoo += 1
     base_env = {"PATH": os.environ.get("PATH", "/usr/bin:/bin")}
+    msan = build_msan(ck)
     setarch = shutil.which("setarch")
     perturbations = [
         ("env-locale-de", dict(base_env, LC_ALL="de_DE.UTF-8", LANG="de_DE.UTF-8", TZ="Asia/Kolkata"), None, False),
@@ -68,7 +149,7 @@ def run(ck):
     ]
     if setarch:
         perturbations.append(("aslr-off", base_env, None, True))
-    stats = {"inputs": len(inputs), "runs": 0, "ok-status": 0, "diagnosed-status": 0, "perturbations": [p[0] for p in perturbations] +
+    stats = {"inputs": len(inputs), "declarator-zoo-inputs": nzoo, "msan-build": bool(msan), "msan-runs": 0, "runs": 0, "ok-status": 0, "diagnosed-status": 0, "perturbations": [p[0] for p in perturbations] +
              ["stdin-vs-path", "-o-vs-stdout"], "valgrind-runs": 0}
 
     def work(item):
@@ -87,6 +168,9 @@ def run(ck):
         r = run_one([cc] + flags + ["-o", outp, path], env=base_env)
         body = open(outp, "rb").read() if os.path.exists(outp) else b""
         res.append(("-o-vs-stdout", (r[0], body if r[0] == 0 else ref[1], b"")))
+        if msan:
+            r = run_one([msan] + flags + [path], env=dict(base_env, MSAN_OPTIONS="exit_code=97:halt_on_error=1"), timeout=120)
+            res.append(("msan-build", r))
         return item, res
 
     for item, res in progrun.run_many(work, inputs):
@@ -98,6 +182,14 @@ def run(ck):
         ck.count((os.path.basename(item[0]), ref[0], len(ref[1])))
         for name, r in res[1:]:
             stats["runs"] += 1
+            if name == "msan-build":
+                stats["msan-runs"] += 1
+                if b"MemorySanitizer" in r[2]:
+                    ck.violation({"kind": "uninitialised-value", "input": open(item[0], errors="replace").read()[:6000], "flags": item[1],
+                                  "msan": r[2].decode(errors="replace")[-2500:],
+                                  "what": "a branch, address or output byte depends on uninitialised memory (MemorySanitizer build of /repo)"})
+                    break
+                r = (r[0], r[1], ref[2])
             same = r[0] == ref[0] and r[1] == ref[1]
             if same and name not in ("stdin-vs-path", "-o-vs-stdout", "cwd-elsewhere"):
                 same = r[2] == ref[2]       # diagnostics too
@@ -114,7 +206,7 @@ def run(ck):
     # valgrind: uninitialised-value-dependent behaviour on the plain build
     vg = shutil.which("valgrind")
     if vg and not ck.violations:
-        sample = inputs[: (8 if ck.quick else 120)]
+        sample = inputs[:(6 if ck.quick else 80)] + inputs[-(10 if ck.quick else 120):]
 
         def vrun(item):
             path, flags = item
